@@ -605,10 +605,8 @@ func (d *DiskKVTest) Sync() error {
 		panic("update called after Close()")
 	}
 	db := (*pebbledb)(atomic.LoadPointer(&d.db))
-	wb := db.db.NewBatch()
-	defer wb.Close()
-	wb.Set([]byte("dummy-key"), []byte("dummy-value"), db.syncwo)
-	return db.db.Apply(wb, db.syncwo)
+	// a synced WAL-only record, the key space is left untouched
+	return db.db.LogData(nil, db.syncwo)
 }
 
 type diskKVCtx struct {
